@@ -118,7 +118,9 @@ func (s *scenario) witness() any {
 // writes the steps perform (the enumeration of that dimension is complete).
 func runCase(r *vk.Run, c Case) (crashedAt []bool) {
 	ctx := context.Background()
-	s := &scenario{r: r, c: c, ctx: ctx, im: world.NewImage(), exec: world.NewExecDouble(), seq: world.NewSeqDouble(),
+	stExec := world.NewExecDouble()
+	stExec.Stateful = true // an execution layer with durable state of its own: what it executed before a crash stays executed
+	s := &scenario{r: r, c: c, ctx: ctx, im: world.NewImage(), exec: stExec, seq: world.NewSeqDouble(),
 		da: world.NewDADouble(), keys: world.NewKeys("proposer"), lastT: world.GenesisTime,
 		affected: map[int]bool{}, pub: map[uint64][]byte{}, durable: map[uint64][]byte{}}
 	fail := func(clause, detail string) {
